@@ -593,3 +593,54 @@ pub fn replay_sched_file(path: &str) -> J {
     }
     json!({"behaviours": n, "distinct_nontrivial": n, "mismatches": mismatches, "samples": samples})
 }
+
+/// Replay MC_Expr behaviours: the expression text is parsed by the real parser (as a row entry) and its tree compared.
+pub fn replay_expr_file(path: &str) -> J {
+    use std::str::FromStr;
+    let text = std::fs::read_to_string(path).expect("read behaviours");
+    let mut n = 0usize;
+    let mut nontrivial = 0usize;
+    let mut mismatches: Vec<J> = vec![];
+    let mut samples = vec![];
+    for (i, line) in text.lines().enumerate() {
+        if line.trim().is_empty() {
+            continue;
+        }
+        let b: J = serde_json::from_str(line).expect("behaviour JSON");
+        n += 1;
+        let toks: Vec<&str> = b["src"].as_array().unwrap().iter().map(|t| t.as_str().unwrap()).collect();
+        // alternate between blank-separated and tight spelling (operators never need blanks)
+        let expr_text = if i % 2 == 0 { toks.join(" ") } else { toks.join("") };
+        let src = format!("A\n({expr_text})\n");
+        *crate::WATCH_TEXT.lock().unwrap() = src.clone();
+        let want = Expr::from_spec(&b["tree"]);
+        if toks.len() >= 5 {
+            nontrivial += 1;
+            if samples.len() < 3 && toks.len() >= 7 {
+                samples.push(json!({"text": expr_text, "tree": b["tree"]}));
+            }
+        }
+        let got = guarded(|| digital_test_runner::ParsedTestCase::from_str(&src));
+        let obs = match got {
+            Err(p) => Err(("panic", p)),
+            Ok(Err(e)) => Err(("reject.valid", format!("{e:?}"))),
+            Ok(Ok(p)) => {
+                let d: J = serde_json::from_str(&p.verif_dump()).expect("dump");
+                Ok(Expr::from_dump(&d["stmts"][0]["entries"][0]["e"]))
+            }
+        };
+        match obs {
+            Err((code, msg)) => {
+                if mismatches.len() < 200 {
+                    mismatches.push(json!({"behaviour": i + 1, "code": code, "step": 0, "text": src, "expected": b["tree"], "observed": msg, "line": line}));
+                }
+            }
+            Ok(t) => {
+                if t != want && mismatches.len() < 200 {
+                    mismatches.push(json!({"behaviour": i + 1, "code": "ast", "step": 0, "text": src, "expected": b["tree"], "observed": t.to_spec(), "line": line}));
+                }
+            }
+        }
+    }
+    json!({"behaviours": n, "distinct_nontrivial": nontrivial, "mismatches": mismatches, "samples": samples})
+}
